@@ -450,21 +450,15 @@ func ruleUnsignedWindow(c *Ctx, pkgs ...string) {
 			tv, ok := info.Types[e]
 			return ok && tv.Value == nil
 		}
-		ast.Inspect(fd.Decl.Body, func(x ast.Node) bool {
-			be, ok := x.(*ast.BinaryExpr)
-			if !ok {
-				return true
-			}
-			switch be.Op {
-			case token.LSS, token.GTR, token.LEQ, token.GEQ:
-			default:
-				return true
-			}
-			for _, side := range []ast.Expr{be.X, be.Y} {
+		compared := map[*ast.BinaryExpr]bool{}
+		var examine func(be *ast.BinaryExpr, sides []ast.Expr)
+		examine = func(be *ast.BinaryExpr, sides []ast.Expr) {
+			for _, side := range sides {
 				sub, ok := ast.Unparen(side).(*ast.BinaryExpr)
-				if !ok || sub.Op != token.SUB || !isUnsigned(sub) || !nonConst(sub.X) || !nonConst(sub.Y) {
+				if !ok || sub.Op != token.SUB || !isUnsigned(sub) || !nonConst(sub.X) || !nonConst(sub.Y) || compared[sub] {
 					continue
 				}
+				compared[sub] = true
 				n++
 				idx++
 				key := fmt.Sprintf("%s.unsigned-diff#%d", FuncKey(fd.Obj), idx)
@@ -516,7 +510,31 @@ func ruleUnsignedWindow(c *Ctx, pkgs ...string) {
 					if os.Getenv("NV_USUB") != "" {
 						fmt.Println("USUB", c.P.Pos(sub.Pos()), base, types.ExprString(be))
 					}
-					c.Fail(key, c.P.Pos(sub.Pos()), fmt.Sprintf("%s compares `%s`: the unsigned difference %s - %s wraps around when %s > %s and nothing in the function tests their order", FuncKey(fd.Obj), trunc(types.ExprString(be), 70), a, b, b, a))
+					c.Fail(key, c.P.Pos(sub.Pos()), fmt.Sprintf("%s computes `%s`: the unsigned difference %s - %s wraps around when %s > %s and nothing in the function tests their order", FuncKey(fd.Obj), trunc(types.ExprString(be), 70), a, b, b, a))
+				}
+			}
+		}
+		ast.Inspect(fd.Decl.Body, func(x ast.Node) bool {
+			be, ok := x.(*ast.BinaryExpr)
+			if !ok {
+				return true
+			}
+			switch be.Op {
+			case token.LSS, token.GTR, token.LEQ, token.GEQ:
+				examine(be, []ast.Expr{be.X, be.Y})
+			}
+			return true
+		})
+		// a height minus the traceability window, wherever it is used (assigned, converted, passed on): the same demand
+		ast.Inspect(fd.Decl.Body, func(x ast.Node) bool {
+			sub, ok := x.(*ast.BinaryExpr)
+			if !ok || sub.Op != token.SUB || compared[sub] {
+				return true
+			}
+			for k := range f.Mentions(sub.Y, nil) {
+				if strings.Contains(k, "MaxTraceableBlocks") {
+					examine(sub, []ast.Expr{sub})
+					break
 				}
 			}
 			return true
@@ -526,6 +544,7 @@ func ruleUnsignedWindow(c *Ctx, pkgs ...string) {
 }
 
 var unsignedDiffOK = map[string]string{
+	"pkg/core.(*Blockchain).tryRunGC#syncP-mtb": "int64(syncP-mtb) wraps to a value above 2^31 while the chain is shorter than MaxTraceableBlocks plus two sync intervals; min() then keeps tgtBlock = height-MaxTraceableBlocks, so removal is merely not aligned to the older sync point (peers syncing from that point cannot get their first blocks here - an observation recorded in DESIGN.md, outside the listed properties: the collector still never passes height-MaxTraceableBlocks)",
 	"pkg/core/statesync.(*Module).Init#p-s.syncInterval": "p >= 2*syncInterval on this path: the function returns above when p < 2*s.syncInterval",
 }
 
